@@ -205,13 +205,23 @@ def _run_history(case):
             return {r[0] for r in st.conn.execute("SELECT id FROM events")}
 
         steps, resolved, nows = [], [], []
-        for entry in case["ops"]:
+        # a second store of the same process on another file (case["neighbour"]: indexes of the operations right before
+        # which it is written to): what it does is no business of the store under test
+        neighbour = None
+        if case.get("neighbour"):
+            neighbour = SqliteStorage(testing=True, filepath=os.path.join(d, "neighbour.db"), enable_lazy_commit=True)
+            neighbour.create_bucket("n", "t", "c", "h", storelib.created_iso(CLOCK0))
+        for n_op, entry in enumerate(case["ops"]):
             clock.us += entry[0]
+            if neighbour is not None and n_op in case["neighbour"]:
+                neighbour.insert_one("n", mk_event([None, CLOCK0, 0, "{}"]))
             out, rop = apply_op(st, entry[1:], refs, own_ids)
             resolved.append(rop)
             nows.append(clock.us)
             steps.append({"out": out, "own": raw_dump(st.conn), "second": second_view(path)})
         st.conn.close()
+        if neighbour is not None:
+            neighbour.conn.close()
         return {"steps": steps, "resolved": resolved, "nows": nows, "start": CLOCK0}
     finally:
         clock.remove()
